@@ -730,3 +730,153 @@ Example lin_rejects_get_free_race :
               (Free 0 ok [], CObs ErrNone [EDelete 0 true; EStop 0] None)],
              [(0, None); (1, None)], [(0, Some []); (1, None)]) = (false, false, false).
 Proof. vm_compute. reflexivity. Qed.
+
+(** * The real InformerMap (harness mode cachereal)
+
+    The real Cache on top of the real InformerMap and real client-go informers; only the API server is a
+    fake whose LIST can hang or fail.  The informer map's calls are not visible here; observable per
+    operation, once things settled: the error class, OwnersForGKV of every kind, the number of open WATCH
+    streams per kind (= running informers past their initial LIST) and, per kind, which registered
+    handlers received an event sent down its streams; per run: the most streams of a kind ever open at
+    once.  A Watch during which LIST hangs or fails past the call's deadline is the model's
+    [informer_sync_fails]. *)
+Record robs := RObs {
+  r_err : err;
+  r_snap : list (gvk * option (list owner));
+  r_streams : list (gvk * N);
+  r_delivered : list (gvk * list handler)
+}.
+
+Definition real_case := (list handler * list gvk * list (op * robs) * list (gvk * N))%type.
+
+Definition robs_of (kinds : list gvk) (p : state * output) : robs :=
+  RObs (o_err (snd p)) (snap_of kinds (fst p))
+       (map (fun g => (g, if runningb (fst p) g then 1 else 0)) kinds)
+       (map (fun g => (g, attached (fst p) g)) kinds).
+
+Definition robs_eqb (a b : robs) : bool :=
+  err_eqb (r_err a) (r_err b) &&
+  list_eqb (fun p q => (fst p =? fst q) && oset_eqb (snd p) (snd q)) (r_snap a) (r_snap b) &&
+  list_eqb (fun p q => (fst p =? fst q) && (snd p =? snd q)) (r_streams a) (r_streams b) &&
+  list_eqb (fun p q => (fst p =? fst q) && set_eqb (snd p) (snd q)) (r_delivered a) (r_delivered b).
+
+Fixpoint agree_real_steps (fixed : bool) (kinds : list gvk) (s : state) (steps : list (op * robs)) : bool :=
+  match steps with
+  | [] => true
+  | (x, b) :: r =>
+      match find (fun x' => robs_eqb (robs_of kinds (stepf fixed s x')) b) (cands kinds x) with
+      | Some x' => agree_real_steps fixed kinds (fst (stepf fixed s x')) r
+      | None => false
+      end
+  end.
+
+Definition agree_real (fixed : bool) (c : real_case) : bool :=
+  let '(handlers, kinds, steps, peaks) := c in agree_real_steps fixed kinds (init handlers) steps.
+
+(** The property on what was observed: after every operation, for every kind, exactly one open WATCH
+    stream if some owner references the kind and none otherwise (nothing scripts informerMap.Delete to
+    fail here), ... *)
+Definition real_streams_ok (kinds : list gvk) (b : robs) : bool :=
+  forallb (fun g =>
+    let own := match lookup g (r_snap b) with Some (Some l) => l | _ => [] end in
+    match lookup g (r_streams b) with
+    | Some n => n =? (if nilb own then 0 else 1)
+    | None => false
+    end) kinds.
+
+(** ... every registered handler receives the events of a kind some owner references, ... *)
+Definition real_delivered_ok (handlers : list handler) (kinds : list gvk) (b : robs) : bool :=
+  forallb (fun g =>
+    let own := match lookup g (r_snap b) with Some (Some l) => l | _ => [] end in
+    nilb own || match lookup g (r_delivered b) with Some d => subset handlers d | None => false end) kinds.
+
+(** ... and never two streams of one kind at the same time. *)
+Definition real_peaks_ok (kinds : list gvk) (peaks : list (gvk * N)) : bool :=
+  forallb (fun g => match lookup g peaks with Some n => n <=? 1 | None => false end) kinds.
+
+Definition judge_real (c : real_case) : bool * bool * bool * bool * bool :=
+  let '(handlers, kinds, steps, peaks) := c in
+  (agree_real false c, agree_real true c,
+   forallb (fun p => real_streams_ok kinds (snd p)) steps,
+   forallb (fun p => real_delivered_ok handlers kinds (snd p)) steps,
+   real_peaks_ok kinds peaks).
+
+(** What the repaired model predicts passes these checks, whatever start-up failures occur. *)
+Fixpoint real_steps_of (fixed : bool) (kinds : list gvk) (s : state) (ops : list op) : list (op * robs) :=
+  match ops with
+  | [] => []
+  | x :: r => let p := stepf fixed s x in (x, robs_of kinds p) :: real_steps_of fixed kinds (fst p) r
+  end.
+
+Lemma lookup_map_kinds {V} (f : gvk -> V) g kinds :
+  In g kinds -> lookup g (map (fun k => (k, f k)) kinds) = Some (f g).
+Proof.
+  induction kinds as [|k kinds IH]; cbn; [intros []|]. intros [->|H].
+  - now rewrite N.eqb_refl.
+  - destruct (g =? k) eqn:E; [apply N.eqb_eq in E; now subst|now apply IH].
+Qed.
+
+Lemma real_monitor_state handlers kinds s o' :
+  hs s = handlers ->
+  (forall g, EIk (hs s) (view s g) /\ NEk (view s g)) ->
+  real_streams_ok kinds (robs_of kinds (s, o')) = true /\
+  real_delivered_ok handlers kinds (robs_of kinds (s, o')) = true.
+Proof.
+  intros Hhs Hinv. unfold real_streams_ok, real_delivered_ok, robs_of. cbn [fst snd r_snap r_streams r_delivered].
+  split; apply forallb_forall; intros g Hg.
+  - rewrite (lookup_snap_of _ _ _ Hg), (lookup_map_kinds (fun k => if runningb s k then 1 else 0) g kinds Hg).
+    destruct (Hinv g) as [[Hiff _] Hne]. unfold view, NEk, runningb in *. cbn [fst snd] in *.
+    destruct (lookup g (refs s)) as [[|o l]|], (lookup g (infs s)) as [a|]; cbn; try reflexivity; exfalso.
+    all: first [now apply Hne
+               |apply (proj1 Hiff); [discriminate|reflexivity]
+               |apply (proj2 Hiff); [discriminate|reflexivity]].
+  - rewrite (lookup_snap_of _ _ _ Hg), (lookup_map_kinds (fun k => attached s k) g kinds Hg).
+    destruct (Hinv g) as [[Hiff Hatt] _]. unfold view, attached in *. cbn [fst snd] in *.
+    destruct (lookup g (refs s)) as [[|o l]|]; cbn; try reflexivity.
+    destruct (lookup g (infs s)) as [a|].
+    + apply subset_incl. rewrite <- Hhs. now apply Hatt.
+    + exfalso. apply (proj1 Hiff); [discriminate|reflexivity].
+Qed.
+
+Theorem monitor_real_sound_fixed handlers kinds ops :
+  no_delete_failures ops = true ->
+  let steps := real_steps_of true kinds (init handlers) ops in
+  forallb (fun p => real_streams_ok kinds (snd p)) steps = true /\
+  forallb (fun p => real_delivered_ok handlers kinds (snd p)) steps = true.
+Proof.
+  intros Hnd. cbv zeta.
+  assert (H : forall ops s, no_delete_failures ops = true -> hs s = handlers ->
+            (forall g, EIk (hs s) (view s g) /\ NEk (view s g)) ->
+            forallb (fun p => real_streams_ok kinds (snd p)) (real_steps_of true kinds s ops) = true /\
+            forallb (fun p => real_delivered_ok handlers kinds (snd p)) (real_steps_of true kinds s ops) = true).
+  { clear ops Hnd. induction ops as [|x ops IH]; intros s Hnd Hhs Hinv; [split; reflexivity|].
+    cbn in Hnd. apply andb_true_iff in Hnd as [Hx Hops]. cbn [real_steps_of forallb snd].
+    destruct (stepf true s x) as [s' o'] eqn:E. cbn [fst].
+    destruct (step_kind _ _ _ _ _ E) as [Hhs' Hk].
+    assert (Hinv' : forall g, EIk (hs s') (view s' g) /\ NEk (view s' g)).
+    { intros g. destruct (Hinv g) as [He Hn]. rewrite Hhs'. split.
+      - eapply EIk_step; [left; reflexivity|exact He|apply Hk].
+      - eapply NEk_step; [exact Hx|exact Hn|apply Hk]. }
+    assert (Hhs2 : hs s' = handlers) by congruence.
+    destruct (real_monitor_state handlers kinds s' o' Hhs2 Hinv') as [H1 H2].
+    destruct (IH s' Hops Hhs2 Hinv') as [H3 H4].
+    rewrite H1, H2, H3, H4. split; reflexivity. }
+  apply H; [exact Hnd|reflexivity|].
+  intros g. split; [split; [cbn; tauto|discriminate]|discriminate].
+Qed.
+
+(** Non-vacuity: an informer that keeps running after its failed start was rolled back (two open
+    streams after the retry, one left after the last owner is gone) is rejected. *)
+Example judge_real_rejects_leak :
+  judge_real ([0; 1], [0; 1],
+    [(Watch 0 0 informer_sync_fails, RObs ErrInformerGet [(0, None); (1, None)] [(0, 1); (1, 0)] [(0, []); (1, [])]);
+     (Watch 0 0 ok, RObs ErrNone [(0, Some [0]); (1, None)] [(0, 2); (1, 0)] [(0, [0; 1]); (1, [])]);
+     (Free 0 ok [], RObs ErrNone [(0, None); (1, None)] [(0, 1); (1, 0)] [(0, []); (1, [])])],
+    [(0, 2); (1, 0)]) = (false, false, false, true, false).
+Proof. vm_compute. reflexivity. Qed.
+
+Example judge_real_accepts_model :
+  let ops := [Watch 0 0 informer_sync_fails; Watch 0 0 ok; Watch 1 0 ok; Free 0 ok []; Free 1 ok []] in
+  judge_real ([0; 1], [0; 1], real_steps_of true [0; 1] (init [0; 1]) ops, [(0, 1); (1, 0)])
+  = (false, true, true, true, true).
+Proof. vm_compute. reflexivity. Qed.
